@@ -22,14 +22,19 @@ open XotModel XotModel.Gen
 theorem C14_cdata_literals :
     cdataOpen = ['<','!','[','C','D','A','T','A','['] ∧
     cdataSplit = [']',']',']',']','>'] ++ cdataOpen ++ ['>'] ∧
+    cdataCr = [']',']','>'] ++ ['&','#','x','D',';'] ++ cdataOpen ∧
     cdataClose = [']',']','>'] := by decide
 
+/-- The reference written between sections for a carriage return decodes to a carriage return. -/
+theorem C14_cdata_cr_reference : refOk '\r' ['&','#','x','D',';'] = true := by decide
+
 /-- `serialize_cdata s` is a sequence of well-formed CDATA sections — each one ends at its first
-    `]]>`, so none contains `]]>` — whose contents concatenate to `s`; for every `s`, in particular
-    every run of `]` and `>`. -/
+    `]]>`, so none contains `]]>` — with the reference `&#xD;` between sections for every carriage
+    return; read back (section contents verbatim, the reference as CR) it spells `s`; for every
+    `s`, in particular every run of `]` and `>`. -/
 theorem C14_cdata (s : Str) : cdataSectionsContent (serializeCdata s) = some s := by
-  obtain ⟨hO, hS, hC⟩ := C14_cdata_literals
-  have h := cdataGo_sections hO hS hC s 0 0 (by omega) (by intro; rfl)
+  obtain ⟨hO, hS, hR, hC⟩ := C14_cdata_literals
+  have h := cdataGo_sections hO hS hR hC s 0 0 (by omega) (by intro; rfl)
   simp only [List.replicate_zero, List.nil_append, Nat.zero_add] at h
   unfold cdataSectionsContent serializeCdata
   rw [hO]
